@@ -134,6 +134,19 @@ pub fn run(out: &str, frames: &[Vec<u8>]) -> usize {
         w.write(&json!({"ev": "val", "k": k, "f": "defaults", "frag_timescale": fc.timescale, "frag_duration_ms": fc.fragment_duration_ms,
                         "frag_w": fc.width, "frag_h": fc.height, "opus_rate": muxide::codec::opus::OPUS_SAMPLE_RATE}));
     }
+    // public constants (values fixed by the codec specifications)
+    {
+        use muxide::codec::{av1, h264, h265};
+        k += 1;
+        w.write(&json!({"ev": "val", "k": k, "f": "constants",
+            "h264": [h264::nal_type::NON_IDR_SLICE, h264::nal_type::IDR_SLICE, h264::nal_type::SPS, h264::nal_type::PPS],
+            "h265": [h265::nal_type::BLA_W_LP, h265::nal_type::BLA_W_RADL, h265::nal_type::BLA_N_LP, h265::nal_type::IDR_W_RADL, h265::nal_type::IDR_N_LP,
+                     h265::nal_type::CRA_NUT, h265::nal_type::VPS, h265::nal_type::SPS, h265::nal_type::PPS, h265::nal_type::AUD, h265::nal_type::EOS,
+                     h265::nal_type::EOB, h265::nal_type::FD, h265::nal_type::PREFIX_SEI, h265::nal_type::SUFFIX_SEI],
+            "obu": [av1::obu_type::SEQUENCE_HEADER, av1::obu_type::TEMPORAL_DELIMITER, av1::obu_type::FRAME_HEADER, av1::obu_type::TILE_GROUP, av1::obu_type::METADATA,
+                    av1::obu_type::FRAME, av1::obu_type::REDUNDANT_FRAME_HEADER, av1::obu_type::TILE_LIST, av1::obu_type::PADDING],
+            "default_sps": bytes_json(h264::DEFAULT_SPS), "default_pps": bytes_json(h264::DEFAULT_PPS)}));
+    }
     let _ = Value::Null;
     w.finish()
 }
